@@ -30,7 +30,8 @@ Python → Lean:
       writer is `pid`. Writers serialise on `_wlock`, so at most one message is ever incomplete, and nothing can be
       appended behind it until its writer finishes (`beginSend`/`sendResult`/… need `partialMsg = none`).
       The parent and every worker hold the write end, so the reader never sees EOF.
-* `_ThreadWakeup` pipe                                          : `wakeups : Nat` (bytes waiting); `clear()` = `0`
+* `_ThreadWakeup` pipe                                          : `wakeups : Nat` (bytes waiting); `clear()` = `0`; its `_closed`
+      flag, the test/write split of `wakeup()`, `_shutdown_lock` and the wait set: the fine-grained layer at the end
 * `wait(readers + worker_sentinels)`                            : `ready` (`Ready`: result reader readable iff the pipe
       holds ANY byte — a complete message or the partial one —, wake-up reader, the pids of dead processes)
 * `result_reader.recv()`                                        : returns the head complete message; with only a partial
@@ -613,5 +614,223 @@ def abortEverything (p : Pool) (b : Backend) (n_jobs queue_size : Nat) (ensure_r
     | some e =>
       let p1 : Pool := { p with execs := p.execs.set i (shutdown e true) }
       if ensure_ready then some (configure p1 n_jobs queue_size) else some (p1, ⟨none⟩)
+
+/-! ### The wake-up pipe, the shutdown lock and the start order of the manager thread (fine-grained layer)
+
+Everything above treats `submit`, `shutdown` and one iteration of the manager's loop as single steps, and lets the
+manager look at the sentinels of ALL processes at the instant it acts. The code is finer, and two things depend on it:
+
+* `wait_result_broken_or_wakeup` builds `worker_sentinels = [p.sentinel for p in list(self.processes.values())]`
+  ONCE, when the thread (re-)enters the wait; a process registered while the thread sleeps is not waited on until
+  something else wakes the thread. `MPh.waiting ws` carries that list (`ws` = the pids).
+* `_ThreadWakeup.wakeup` is a test and a write (`if not self._closed: self._writer.send_bytes(b"")`); `close` sets
+  `_closed` and closes both ends; a write to a closed connection raises `OSError("handle is closed")`. The two are kept
+  apart by `_shutdown_lock`: `submit` holds it from its flag test to its end, `shutdown` around its `wakeup()`,
+  `join_executor_internals` around `thread_wakeup.close()`, `flag_as_broken`/`flag_as_shutting_down` around the flags.
+
+Python → Lean (this layer):
+* `_ThreadWakeup._closed`                                         : `WState.closed`; the bytes in the pipe stay `base.wakeups`
+* `executor._shutdown_lock`                                       : `WState.lock` (`true` = held by the CALLER thread across steps;
+      the manager thread takes and releases it inside one step, which is therefore enabled only when `lock = false`)
+* the caller thread inside `submit` / `shutdown`                  : `CPc` (`submit`: flag test + registration — `callSubmit` —,
+      `subTest`, `subWrite` = `wakeup()`, `subEns1`, `subEns2` = the two statements of `_ensure_executor_running` (which of
+      the two pairs comes first: `Cfg.wakeupBeforeRespawn`),
+      `_adjust_process_count` spawning ONE process per step; `shutdown`: `callShutdown` = `flag_as_shutting_down`,
+      `shutAcquire`, `shutTest`, `shutWrite`)
+* the manager thread inside `run`                                 : `MPh` (`top` = before `add_call_item_to_queue()`;
+      `waiting ws` = inside `wait(readers + worker_sentinels)`; `closing` = `join_executor_internals` before
+      `with self.shutdown_lock: self.thread_wakeup.close()`; `done`)
+* `OSError` out of `send_bytes`                                   : `WState.oserror`
+* the order of `_ensure_executor_running`, the lock around `close` and the place of `wakeup()` in `submit` are `Cfg`
+  switches; `Cfg.code` is the code as it is (`_adjust_process_count()` BEFORE `_start_executor_manager_thread()`; `close`
+  under the lock; `wakeup()` AFTER `_ensure_executor_running()` — repair F53), `Cfg.preF53` the code before F53. -/
+
+/-- The two places where an order / a lock of the code can be varied. `Cfg.code` = the code as it is. -/
+structure Cfg where
+  /-- `_start_executor_manager_thread()` BEFORE `_adjust_process_count()` (not the code's order). -/
+  managerFirst : Bool
+  /-- `thread_wakeup.close()` in `join_executor_internals` WITHOUT `shutdown_lock` (not what the code does). -/
+  closeUnlocked : Bool
+  /-- `submit` calls `wakeup()` BEFORE `_ensure_executor_running()` — the order of the code before the repair F53
+  (fixes/F53-wakeup-after-respawn.diff); `false` = the wake-up is the LAST statement of `submit`. -/
+  wakeupBeforeRespawn : Bool
+deriving DecidableEq, Repr, Inhabited, Hashable
+
+/-- The code as it is (with the repair F53: the wake-up of `submit` comes after the workers are (re)spawned). -/
+def Cfg.code : Cfg := ⟨false, false, false⟩
+/-- The code before the repair F53. -/
+def Cfg.preF53 : Cfg := ⟨false, false, true⟩
+
+/-- `submit` between the flag tests and `wakeup()`: future, work item, `_work_ids.put`, `_queue_count += 1`. -/
+def registerItem (s : State) (arg : Nat) : State :=
+  { s with futures := s.futures ++ [⟨arg, .pending⟩],
+           pending_work_items := s.pending_work_items ++ [s.futures.length],
+           work_ids := s.work_ids ++ [s.futures.length] }
+
+/-- `self._writer.send_bytes(b"")` on an open pipe. -/
+def writeWakeup (s : State) : State := { s with wakeups := s.wakeups + 1 }
+
+/-- `flag_as_shutting_down(kill_workers)`. -/
+def flagShutdown (s : State) (kill_workers : Bool) : State :=
+  { s with flags := { s.flags with shutdown := true, kill_workers := kill_workers } }
+
+/-- `[p.sentinel for p in list(self.processes.values())]`, as pids. -/
+def pidsOf (ps : List Worker) : List Nat := ps.map (·.pid)
+
+/-- The sentinels that are ready AMONG THOSE WAITED ON. -/
+def deadWaited (ws : List Nat) (ps : List Worker) : List Nat := (deadPids ps).filter (fun p => ws.contains p)
+
+/-- `wait(readers + worker_sentinels)` with the sentinel list `ws` returns. -/
+def waitReady (s : State) (ws : List Nat) : Bool :=
+  !s.result_pipe.isEmpty || s.partialMsg.isSome || decide (s.wakeups > 0) || !(deadWaited ws s.processes).isEmpty
+
+/-- `wait_result_broken_or_wakeup` with the sentinel list `ws`, and the rest of the iteration: `managerStep` after
+`add_call_item_to_queue`, looking only at the sentinels of `ws`. -/
+def waitStep (s1 : State) (ws : List Nat) : State × StepResult :=
+  match s1.result_pipe, s1.partialMsg with
+  | m :: rest, _ =>
+    let s2 := received s1 rest
+    match m with
+    | .remoteTb => (terminateBroken s2 .brokenPool, .exited)
+    | .unpicklable => (terminateBroken s2 .brokenPool, .exited)
+    | m => finishIteration (processResultItem s2 m)
+  | [], some w =>
+    if writerAlive s1 w then (s1, .blockedInRecv w) else (s1, .stuckInRecv w)
+  | [], none =>
+    if s1.wakeups > 0 then finishIteration (received s1 [])
+    else if (deadWaited ws s1.processes).isEmpty then (s1, .blockedInWait)
+    else (terminateBroken s1 .terminatedWorker, .exited)
+
+/-- Where the caller thread stands. -/
+inductive CPc where
+  | idle
+  | subTest | subWrite | subEns1 | subEns2
+  | shutAcquire | shutTest | shutWrite
+deriving DecidableEq, Repr, Inhabited, Hashable
+
+/-- Where the manager thread stands (meaningful while `base.mgr` is `running` / `exited`). -/
+inductive MPh where
+  | top
+  | waiting (ws : List Nat)
+  | closing
+  | done
+deriving DecidableEq, Repr, Inhabited, Hashable
+
+structure WState where
+  base : State
+  cpc : CPc
+  mph : MPh
+  lock : Bool
+  closed : Bool
+  oserror : Bool
+deriving DecidableEq, Repr, Inhabited, Hashable
+
+def WState.init (max_workers queue_size first_pid : Nat) : WState :=
+  { base := State.init max_workers queue_size first_pid, cpc := .idle, mph := .top,
+    lock := false, closed := false, oserror := false }
+
+/-- Events of workers and of the OS (the client and the manager have their own steps in this layer). -/
+inductive EnvEv where
+  | take (pid : Nat) | unpickleFail (pid : Nat) | sendResult (pid : Nat) | sendTaskExc (pid : Nat)
+  | beginSend (pid : Nat) | endSend (pid : Nat) | announceExit (pid : Nat) | kill (pid : Nat)
+deriving DecidableEq, Repr
+
+def EnvEv.toEvent : EnvEv → Event
+  | .take p => .take p | .unpickleFail p => .unpickleFail p | .sendResult p => .sendResult p
+  | .sendTaskExc p => .sendTaskExc p | .beginSend p => .beginSend p | .endSend p => .endSend p
+  | .announceExit p => .announceExit p | .kill p => .kill p
+
+inductive WEvent where
+  | callSubmit (arg : Nat)          -- the caller (idle) enters `submit`: lock, flag tests, registration
+  | callShutdown (kill_workers : Bool)  -- the caller (idle) enters `shutdown`: `flag_as_shutting_down`
+  | caller                          -- the caller thread's next statement
+  | manager                         -- the manager thread's next statement
+  | env (e : EnvEv)
+deriving DecidableEq, Repr
+
+/-- Does the rest of the iteration take `shutdown_lock` (`flag_as_broken`, `flag_as_shutting_down`)? -/
+def takesLock (r : State × StepResult) : Bool := r.2 == .exited || isShuttingDown r.1
+
+/-- `submit` returns: the lock is released. -/
+def submitReturns (s : WState) : WState := { s with cpc := .idle, lock := false }
+
+/-- The caller thread's next statement. Inside `submit` (lock held throughout):
+before F53 `wakeup()` (`subTest`, `subWrite`) then `_ensure_executor_running()` (`subEns1`, `subEns2`); with F53 the
+other way round. -/
+def callerStep (cfg : Cfg) (s : WState) : WState :=
+  /- what follows `wakeup()` / `_ensure_executor_running()` inside `submit` -/
+  let afterWakeup (s : WState) : WState := if cfg.wakeupBeforeRespawn then { s with cpc := .subEns1 } else submitReturns s
+  let afterEnsure (s : WState) : WState := if cfg.wakeupBeforeRespawn then submitReturns s else { s with cpc := .subTest }
+  match s.cpc with
+  | .idle => s
+  | .subTest => if s.closed then afterWakeup s else { s with cpc := .subWrite }
+  | .subWrite =>
+    if s.closed then { s with oserror := true, cpc := .idle, lock := false }      -- `OSError` leaves `submit`
+    else afterWakeup { s with base := writeWakeup s.base }
+  | .subEns1 =>
+    if cfg.managerFirst then { s with base := startManager s.base, cpc := .subEns2 }
+    else if s.base.processes.length < s.base.max_workers then { s with base := spawn 1 s.base }
+    else { s with cpc := .subEns2 }
+  | .subEns2 =>
+    if cfg.managerFirst then
+      if s.base.processes.length < s.base.max_workers then { s with base := spawn 1 s.base }
+      else afterEnsure s
+    else afterEnsure { s with base := startManager s.base }
+  | .shutAcquire => if s.lock then s else { s with lock := true, cpc := .shutTest }
+  | .shutTest => if s.closed then { s with cpc := .idle, lock := false } else { s with cpc := .shutWrite }
+  | .shutWrite =>
+    if s.closed then { s with oserror := true, cpc := .idle, lock := false }      -- `OSError` leaves `shutdown`
+    else { s with base := writeWakeup s.base, cpc := .idle, lock := false }
+
+/-- The manager thread's next statement. -/
+def managerMicro (cfg : Cfg) (s : WState) : WState :=
+  match s.base.mgr, s.mph with
+  | .running, .top =>
+    let s1 := addCallItems s.base
+    if s1.mgr = .crashed then { s with base := s1 }
+    else { s with base := s1, mph := .waiting (pidsOf s1.processes) }
+  | .running, .waiting ws =>
+    if !waitReady s.base ws then s
+    else
+      let r := waitStep s.base ws
+      if takesLock r && s.lock then s
+      else
+        match r.2 with
+        | .progressed => { s with base := r.1, mph := .top }
+        | .exited => { s with base := r.1, mph := .closing }
+        | .crashed => { s with base := r.1 }
+        | _ => s
+  | .exited, .closing =>
+    if s.lock && !cfg.closeUnlocked then s else { s with closed := true, mph := .done }
+  | _, _ => s
+
+def wstep (cfg : Cfg) (fn : Nat → Nat) (s : WState) : WEvent → WState
+  | .callSubmit arg =>
+    if s.cpc ≠ .idle || s.lock then s
+    else if s.base.flags.broken.isSome || s.base.flags.shutdown then s       -- `submit` raises the stored error
+    else { s with base := registerItem s.base arg, cpc := if cfg.wakeupBeforeRespawn then .subTest else .subEns1, lock := true }
+  | .callShutdown kw =>
+    if s.cpc ≠ .idle || s.lock then s
+    else { s with base := flagShutdown s.base kw, cpc := .shutAcquire }
+  | .caller => callerStep cfg s
+  | .manager => managerMicro cfg s
+  | .env e => { s with base := step fn s.base e.toEvent }
+
+def wrun (cfg : Cfg) (fn : Nat → Nat) (s : WState) (evs : List WEvent) : WState := evs.foldl (wstep cfg fn) s
+
+/-- The manager thread sleeps in `wait` and nothing it waits on is ready. -/
+def WState.asleep (s : WState) : Bool :=
+  match s.base.mgr, s.mph with
+  | .running, .waiting ws => !waitReady s.base ws
+  | _, _ => false
+
+/-- What `Parallel.__call__` re-raises when a future of the call carries `e` and its abort
+(`abort_everything` → `executor.shutdown(kill_workers=True)`) has run: the abort's own `OSError` replaces `e`. -/
+inductive Raised where
+  | exc (e : Exc)
+  | osError
+deriving DecidableEq, Repr
+
+def WState.raised (s : WState) (e : Exc) : Raised := if s.oserror then .osError else .exc e
 
 end JoblibModel.LokyMgr
